@@ -107,6 +107,25 @@ theorem Dec_add_total {a b : Int} (h : |dv a + dv b| ≤ 10 ^ 40) : Dec.add a b 
 theorem Dec_sub_total {a b : Int} (h : |dv a - dv b| ≤ 10 ^ 40) : Dec.sub a b = some (a - b) := by
   unfold Dec.sub; apply chkDec_of_dv; rwa [dv_sub]
 
+/-- integer rounding: a raw value above `c − 1` is at least `c`. -/
+theorem int_ge_of_dv {y c : Int} (h : dv c - 1 / 10 ^ 18 < dv y) : c ≤ y := by
+  unfold dv at h
+  have h10 : (0 : ℝ) < 10 ^ 18 := by positivity
+  have : (c : ℝ) - 1 < y := by
+    have e : (c : ℝ) / 10 ^ 18 - 1 / 10 ^ 18 = ((c : ℝ) - 1) / 10 ^ 18 := by ring
+    rw [e, div_lt_div_iff_of_pos_right h10] at h; exact h
+  have : c - 1 < y := by exact_mod_cast this
+  omega
+
+theorem int_le_of_dv {y c : Int} (h : dv y < dv c + 1 / 10 ^ 18) : y ≤ c := by
+  unfold dv at h
+  have h10 : (0 : ℝ) < 10 ^ 18 := by positivity
+  have : (y : ℝ) < c + 1 := by
+    have e : (c : ℝ) / 10 ^ 18 + 1 / 10 ^ 18 = ((c : ℝ) + 1) / 10 ^ 18 := by ring
+    rw [e, div_lt_div_iff_of_pos_right h10] at h; exact h
+  have : y < c + 1 := by exact_mod_cast this
+  omega
+
 /-- a Boolean sign flag as a factor `±1`. -/
 noncomputable def sg (b : Bool) : ℝ := if b then -1 else 1
 
